@@ -112,6 +112,7 @@ class PDFTextExtractionNotAllowed(PDFEncryptionError):
 LITERAL_OBJSTM = LIT("ObjStm")
 LITERAL_XREF = LIT("XRef")
 LITERAL_CATALOG = LIT("Catalog")
+LITERAL_IDENTITY = LIT("Identity")
 
 
 class PDFBaseXRef:
@@ -384,12 +385,23 @@ class PDFStandardSecurityHandler:
         self.init_key()
 
     def init_params(self) -> None:
+        for key in ("R", "P", "O", "U"):
+            if key not in self.param:
+                raise PDFEncryptionError(
+                    "Missing /%s: param=%r" % (key, self.param)
+                )
         self.v = int_value(self.param.get("V", 0))
         self.r = int_value(self.param["R"])
         self.p = uint_value(self.param["P"], 32)
+        if not 0 <= self.p < 2**32:
+            raise PDFEncryptionError("Invalid /P: param=%r" % self.param)
         self.o = str_value(self.param["O"])
         self.u = str_value(self.param["U"])
         self.length = int_value(self.param.get("Length", 40))
+        if self.length % 8 != 0 or not 40 <= self.length <= 256:
+            raise PDFEncryptionError("Invalid /Length: param=%r" % self.param)
+        if len(self.docid) == 0 or not isinstance(self.docid[0], bytes):
+            raise PDFEncryptionError("Invalid file identifier: %r" % (self.docid,))
 
     def init_key(self) -> None:
         self.key = self.authenticate(self.password)
@@ -508,12 +520,13 @@ class PDFStandardSecurityHandlerV4(PDFStandardSecurityHandler):
         super().init_params()
         self.length = 128
         self.cf = dict_value(self.param.get("CF"))
-        self.stmf = literal_name(self.param["StmF"])
-        self.strf = literal_name(self.param["StrF"])
+        # a crypt filter that is not named is the identity filter
+        self.stmf = literal_name(self.param.get("StmF", LITERAL_IDENTITY))
+        self.strf = literal_name(self.param.get("StrF", LITERAL_IDENTITY))
         self.encrypt_metadata = bool(self.param.get("EncryptMetadata", True))
         self.cfm = {}
         for k, v in self.cf.items():
-            f = self.get_cfm(literal_name(v["CFM"]))
+            f = self.get_cfm(literal_name(dict_value(v).get("CFM")))
             if f is None:
                 error_msg = "Unknown crypt filter method: param=%r" % self.param
                 raise PDFEncryptionError(error_msg)
@@ -587,8 +600,17 @@ class PDFStandardSecurityHandlerV5(PDFStandardSecurityHandlerV4):
     def init_params(self) -> None:
         super().init_params()
         self.length = 256
-        self.oe = str_value(self.param["OE"])
-        self.ue = str_value(self.param["UE"])
+        self.oe = str_value(self.param.get("OE"))
+        self.ue = str_value(self.param.get("UE"))
+        if (
+            len(self.oe) != 32
+            or len(self.ue) != 32
+            or len(self.o) < 48
+            or len(self.u) < 48
+        ):
+            raise PDFEncryptionError(
+                "Invalid /O, /U, /OE or /UE: param=%r" % self.param
+            )
         self.o_hash = self.o[:32]
         self.o_validation_salt = self.o[32:40]
         self.o_key_salt = self.o[40:]
